@@ -34,8 +34,14 @@ namespace {
       int depth;
    };
 
+   // The second (or transient) Lexicon of an execution is not byte-for-byte the twin of the first: it starts by interning a word of its
+   // own, so that whatever it writes lands at other offsets than the first one's (two Lexicons sharing storage they should not
+   // share overwrite each other with DIFFERENT bytes, not with the same ones).
+   bool other_world = false;
+   struct Salted { explicit Salted(ipr::impl::Lexicon& l) { if (other_world) { (void) l.get_identifier(u8"the-other-lexicon-was-here"); (void) l.get_string(u8"0123456789-other"); } } };
    struct World {
       ipr::impl::Lexicon lex;
+      Salted salted{ lex };
       std::unique_ptr<ipr::impl::Translation_unit> tu;
       std::unique_ptr<ipr::impl::Module> module;
       ipr::impl::Module_unit* munit = nullptr;
@@ -275,7 +281,7 @@ namespace {
       {
          World w(h.unit);
          std::unique_ptr<World> second;
-         if (leaf and h.twin == 1) second = std::make_unique<World>(h.unit);
+         if (leaf and h.twin == 1) { other_world = true; second = std::make_unique<World>(h.unit); other_world = false; }
          bool ok = true;
          std::size_t done = 0;
          for (int x : h.steps) {
@@ -284,7 +290,9 @@ namespace {
             ++done;
             if (second) { second->open(x / 64, x % 64); rep.count("transitions"); }
             if (leaf and h.twin == 2) {
+               other_world = true;
                World t(h.unit);
+               other_world = false;
                for (std::size_t j = 0; j < done; ++j) { t.open(h.steps[j] / 64, h.steps[j] % 64); rep.count("transitions"); }
                t.validate();
                for (auto& e : t.errors) w.errors.push_back(e + " (observed on a transient Lexicon that repeated the history so far)");
